@@ -31,6 +31,7 @@ import (
 
 	"verifharness/cmd/diskchild/work"
 	"verifharness/ev"
+	"verifharness/gen"
 	"verifharness/models"
 )
 
@@ -82,7 +83,7 @@ func judge(c work.ConcCase, recs []work.Rec) (msg, infra string) {
 			}
 			continue
 		case "read", "readto":
-			if r.Torn {
+			if r.Torn && c.Kind != "file-mixed" {
 				return fmt.Sprintf("torn read: %s returned a block that is not one whole written block: word 0 carries tag %#x but word %d carries tag %#x", describe(r), r.Tag, r.TornAt, r.TornTag), ""
 			}
 			if !r.Refused && r.Tag != 0 && !written[r.Addr][r.Tag] {
@@ -95,6 +96,9 @@ func judge(c work.ConcCase, recs []work.Rec) (msg, infra string) {
 		byAddr[r.Addr] = append(byAddr[r.Addr], r)
 	}
 	sort.Slice(addrs, func(i, j int) bool { return addrs[i] < addrs[j] })
+	if c.Kind == "file-mixed" {
+		return judgeMixed(c, byAddr, addrs), ""
+	}
 	model := models.RegisterModel(c.Size)
 	for _, a := range addrs {
 		var ops []porcupine.Operation
@@ -125,6 +129,66 @@ func judge(c work.ConcCase, recs []work.Rec) (msg, infra string) {
 		}
 	}
 	return "", ""
+}
+
+// judgeMixed: concurrent clients on shared addresses of the FILE-backed disk. The property does not
+// make pread/pwrite of one block atomic with respect to each other, only "operations ordered in
+// real time on one address are observed in that order": a read R of address a returns the value
+// of a write W of a (or zero, if no write returned before R was called) such that no other write
+// of a lies entirely between W and R; and a read that overlaps no write of a returns one whole
+// block. (Seeded change C10-6: a block cache of the file-backed disk that keeps a stale block.)
+func judgeMixed(c work.ConcCase, byAddr map[uint64][]work.Rec, addrs []uint64) string {
+	for _, a := range addrs {
+		var writes []work.Rec
+		for _, r := range byAddr[a] {
+			if r.Op == "write" && !r.Refused {
+				writes = append(writes, r)
+			}
+		}
+		for _, r := range byAddr[a] {
+			if r.Op == "write" || r.Refused {
+				continue
+			}
+			concurrent := false
+			for _, w := range writes {
+				if w.Call < r.Ret && r.Call < w.Ret {
+					concurrent = true
+				}
+			}
+			if r.Torn {
+				if !concurrent {
+					return fmt.Sprintf("torn read: %s overlaps no write of address %d, yet it returned a block that is not one whole written block: word 0 carries tag %#x but word %d carries tag %#x", describe(r), a, r.Tag, r.TornAt, r.TornTag)
+				}
+				continue
+			}
+			// the write whose value R returned (tags are unique per write); tag 0 = the initial zero block
+			var src *work.Rec
+			for i := range writes {
+				if writes[i].Tag == r.Tag {
+					src = &writes[i]
+				}
+			}
+			if r.Tag != 0 && src == nil {
+				continue // reported by the caller ("never written")
+			}
+			if src != nil && src.Call > r.Ret {
+				return fmt.Sprintf("%s returned the value of a write that started only afterwards: %s", describe(r), describe(*src))
+			}
+			for _, w := range writes {
+				if w.Ret >= r.Call {
+					continue // not entirely before the read
+				}
+				if src == nil || src.Ret < w.Call {
+					what := "the initial zero block"
+					if src != nil {
+						what = "the value of " + describe(*src)
+					}
+					return fmt.Sprintf("stale read on the file-backed disk: %s returned %s although %s had been written and had returned in between (operations ordered in real time on one address must be observed in that order)", describe(r), what, describe(w))
+				}
+			}
+		}
+	}
+	return ""
 }
 
 // overlapping is the non-triviality test of one execution:
@@ -278,6 +342,25 @@ func genFile(t *rapid.T) work.ConcCase {
 			ci := rapid.IntRange(0, n-1).Draw(t, "who")
 			c.Route = append(c.Route, ci)
 			c.Clients[ci] = append(c.Clients[ci], genOps(t, 1, hot, "h")...)
+		}
+		return c
+	}
+	if gen.Chance(t, "mixed", 40) {
+		// truly concurrent clients on shared addresses; disks large enough for addresses that differ
+		// by a power of two (anything keyed by a % 2^k collides) next to neighbours
+		c.Kind = "file-mixed"
+		stride := uint64(1) // neighbours (read-ahead, C10-4) in a third of the cases, else 2^k (slot collisions, C10-6)
+		if !gen.Chance(t, "adjacent", 35) {
+			stride = uint64(1) << uint(gen.Range(t, "stridelog", 1, 8))
+		}
+		base := uint64(gen.Range(t, "base", 0, 5))
+		hot := []uint64{base, base + stride}
+		if gen.Chance(t, "third", 50) {
+			hot = append(hot, base+2*stride)
+		}
+		c.Size = base + 2*stride + uint64(gen.Range(t, "spare", 1, 3))
+		for ci := 0; ci < n; ci++ {
+			c.Clients = append(c.Clients, genOps(t, rapid.IntRange(5, 40).Draw(t, "nops"), hot, ""))
 		}
 		return c
 	}
